@@ -34,7 +34,9 @@ def opVacuumNew : P String := do
 def opAtmoAt : P String := do
   let a ← pAtmo
   let alts ← pList pF
-  pure (outFs (alts.flatMap fun z => let r := a.densityMachAt z; [r.1, r.2]))
+  pure (" ".intercalate (alts.map fun z => match a.densityMachAt z with
+    | some r => outFs [r.1, r.2]
+    | none => "err:domain"))
 
 def opAtmoStd : P String := do
   let alt ← pF
@@ -93,6 +95,7 @@ def reasonStr : Reason → String
 def outErr : Err Float → String
   | .range reason rows => "err:range " ++ reasonStr reason ++ " " ++ outRows rows
   | .zeroDiv => "err:zerodiv"
+  | .mathDomain => "err:domain"
   | .outOfFuel => "err:fuel"
   | .zeroFinding e i el => s!"err:zero {outF e} {i} {outF el}"
 
